@@ -117,7 +117,16 @@ func (g *gen) newTable(s *gSchema, maxCols int) *gTable {
 				intT = "INTEGER"
 			}
 			c := ColDef{Name: "id", Typ: intT}
-			if g.rng.Intn(4) != 0 { // inline primary key
+			// MySQL: the key is written inline for half of the tables, at table level (PRIMARY KEY (id), printed as
+			// ALTER TABLE ... ADD PRIMARY KEY by the harness) for three tenths, and left out for the rest
+			keyRoll := g.rng.Intn(10)
+			if g.dialect == "mysql" && keyRoll >= 5 && keyRoll < 8 {
+				c.Opts = []Opt{{Kind: "notnull"}}
+				t.Pk = []string{"id"}
+				t.Cols = append(t.Cols, c)
+				continue
+			}
+			if (g.dialect == "mysql" && keyRoll < 5) || (g.dialect != "mysql" && keyRoll < 7) { // inline primary key
 				if g.dialect == "mysql" {
 					c.Opts = []Opt{{Kind: "notnull"}}
 					if g.rng.Intn(2) == 0 {
